@@ -23,6 +23,24 @@ pub struct Chunked<'a> {
     pub pos: usize,
     pub chunk: usize,
 }
+/// A reader that answers every other call with `ErrorKind::Interrupted` (a signal arrived; the caller is expected to retry) and
+/// otherwise hands out at most `chunk` bytes.
+pub struct Interrupting<'a> {
+    pub data: &'a [u8],
+    pub pos: usize,
+    pub chunk: usize,
+    pub calls: usize,
+}
+impl<'a> Read for Interrupting<'a> {
+    fn read(&mut self, buf: &mut [u8]) -> std::io::Result<usize> {
+        self.calls += 1;
+        if self.calls % 2 == 1 { return Err(std::io::Error::new(std::io::ErrorKind::Interrupted, "interrupted")); }
+        let n = buf.len().min(self.chunk).min(self.data.len() - self.pos);
+        buf[..n].copy_from_slice(&self.data[self.pos..self.pos + n]);
+        self.pos += n;
+        Ok(n)
+    }
+}
 impl<'a> Read for Chunked<'a> {
     fn read(&mut self, buf: &mut [u8]) -> std::io::Result<usize> {
         let n = buf.len().min(self.chunk).min(self.data.len() - self.pos);
@@ -132,6 +150,12 @@ where
             let mut src = Chunked { data: e, pos: 0, chunk: ch };
             let rr = guarded(|| serde_amqp::from_reader::<T>(&mut src));
             match (&rr, &r) { (Ok(a), Ok(b)) if eqv(a, b) => {} (Err(_), Err(_)) => {} _ => rd = "differs" }
+        }
+        // a stream whose reads are interrupted now and then is still the same stream
+        {
+            let mut src = Interrupting { data: e, pos: 0, chunk: 3, calls: 0 };
+            let rr = guarded(|| serde_amqp::from_reader::<T>(&mut src));
+            match (&rr, &r) { (Ok(a), Ok(b)) if eqv(a, b) => {} (Err(_), Err(_)) => {} _ => if rd == "ok" { rd = "differs-interrupted" } }
         }
         // a stream reader must not take more from the stream than the value: whatever it reads ahead is lost with it
         // (the frame decoder hands the rest of the stream on as payload).  Fed one byte at a time the position is exact.
